@@ -58,7 +58,7 @@ theorem resolve_eq_spec (root : Cls) (hn : root.ids.Nodup) (a : String) :
       match root.order.find? (fun c => c.aliases.contains a) with
       | some c => .ok c
       | none => .error .valueError :=
-  resolve_eq_spec' root a hn
+  resolve_eq_spec_model root a hn
 
 /-- The declarative order is what the docstring promises: reverse registration order over the
 subclasses' hierarchies, the class itself last. -/
